@@ -47,6 +47,8 @@ def sig_of(f, c, info):
             origin_first = c['originA'] if route.startswith('A.') else True
             return 'minkowski|convex first operand, non-convex second|%s|origin in first operand: %s|%s' % (
                 op, str(bool(origin_first)).lower(), kind)
+        if first == 'n' and second == 'n':
+            return 'minkowski|both operands non-convex|B=%s|%s|%s' % (c['bname'], op, kind)
         return '%s|%s|%s|%s' % (kind, route, disp, case_text(c))
     return '%s|%s|%s|%s' % (kind, route, why, case_text(c))
 
@@ -217,7 +219,7 @@ def main(tier):
     groups, heavy = {}, []
     for b in mcases:
         c = json.loads(b)
-        if len(c['A']) > 1 and c['bname'] in ('Lin', 'Lflat'):
+        if len(c['A']) > 1 and c['bname'] in ('Lin', 'Lflat', 'Lbig'):
             heavy.append(b)
         else:
             groups.setdefault((c['bname'], c['only']), []).append(b)
@@ -228,9 +230,32 @@ def main(tier):
         for key in sorted(groups):
             if n < len(groups[key]):
                 light.append(groups[key][n])
+    # convex first / non-convex second is the class of the known findings F16S/F16D: one in three of those is enough
+    isL = lambda b: json.loads(b)['bname'] in ('Lin', 'Lflat', 'Lbig')
+    if not thorough:
+        lrank, thinned = 0, []
+        for b in light:
+            if isL(b):
+                lrank += 1
+                if lrank % 4 != 1:
+                    continue
+            thinned.append(b)
+        light = thinned
     rnd.shuffle(heavy)
-    heavy.sort(key=lambda b: json.loads(b)['bname'] != 'Lflat')     # the flat L has fewer faces: cheaper
-    nl, nh = (len(light), 80) if thorough else (150, 4)
+    # cheapest first within each structuring solid (cost ~ faces(A) x faces(B)); the thick L ("Lbig") is the
+    # regime of finding F16N and must be visited; then the flat L, then the L with interior origin
+    heavy.sort(key=lambda b: len(json.loads(b)['cA']))
+    byB = {n: [b for b in heavy if json.loads(b)['bname'] == n] for n in ('Lbig', 'Lflat', 'Lin')}
+    its = {n: iter(v) for n, v in byB.items()}
+    heavy, alive = [], True
+    while alive:
+        alive = False
+        for name in ('Lbig', 'Lflat', 'Lflat', 'Lin'):
+            b = next(its[name], None)
+            if b is not None:
+                heavy.append(b)
+                alive = True
+    nl, nh = (len(light), 80) if thorough else (80, 3)      # quick: Lbig, Lflat, Lflat
     mres = run(chk, light[:nl], [], 'mink', MINK_KINDS, jobs=14, timeout=3000 if thorough else 600, chunk=10)
     vf.log('[C16] light Minkowski pairs done (%.0fs)' % (time.time() - chk.t0))
     hres = run(chk, heavy[:nh], [], 'minkH', MINK_KINDS, jobs=14, timeout=3000 if thorough else 900, chunk=1)
